@@ -270,6 +270,11 @@ class Flow:
             d = self.single_def(e)
             if d is not None and d.kind == "assign" and isinstance(d.value, ast.expr):
                 return self.expand(d.value, depth - 1)
+            # a, b = x, y : the element of a literal right-hand side at the target's position
+            if d is not None and d.kind == "unpack" and isinstance(d.value, (ast.Tuple, ast.List)) and d.index is not None \
+                    and len(d.index) == 1 and isinstance(d.index[0], int) and d.index[0] < len(d.value.elts) \
+                    and not any(isinstance(x, ast.Starred) for x in d.value.elts):
+                return self.expand(d.value.elts[d.index[0]], depth - 1)
             return e
         return e
 
